@@ -3,6 +3,9 @@
 import json
 
 CHECKS = {
+ 'C03': dict(cat='exploration', tech='bounded exhaustive enumeration of conversion programs (type pairs x contexts x chains) and source values; IL machine vs C11 reference (gcc/clang-validated)',
+             text='All 8x8 source/target pairs plus boolean sources in every conversion context (cast, initialisation, assignment, R/RR/P/alias register write, jump target, store data, argument/return of bundled sub-routines and helpers, loads, register/immediate sources) and conversion chains are compiled from a fresh state and executed on the complete E5 domain of the source (8-bit exhaustively); the converted value observed in a 64-bit local, the pending register bank or memory must equal the C reference.',
+             note='Trusted: ILVM CAST/SIGNED/UNSIGNED semantics; vf/ceval.py conversions (cross-validated against gcc and clang in the same run). Generated sub-routine parameter/return conversions are covered by C08.', ref='4 C03'),
  'C04': dict(cat='exploration', tech='exhaustive enumeration of all ordered type pairs through the real c11_cast/promoted_type against an independent C11 table',
              text='Every ordered pair of (signedness, width) over the stated width range is put through the real functions; table, symmetry, determinism, purity and aliasing clauses are checked on each pair. The domain is finite and enumerated completely, so within the width range this is a decision, not a sample.',
              note='Trusted: the 12-line reference table in vf/props/c04.py (C11 6.3.1.8 with rank = width). Widths above 2048 are outside the claim.', ref='4 C04'),
@@ -21,6 +24,18 @@ CHECKS = {
  'C12': dict(cat='exploration', tech='exhaustive enumeration of emitted texts with an independent use-counting linearity checker',
              text='Same text space as C10 with the re-use generator (same operand 1..5 times over 1..3 statements, folded-away operands, conditionally emitted statements). Per declared pure: exactly one raw (consuming) occurrence, all others under DUP; per effect: exactly one occurrence; borrowed parameters at most one raw use; nothing initialised is left unused.',
              note='Trusted: the occurrence counter in vf/il.py; the ownership convention (raw use consumes, DUP copies) as stated in the property.', ref='4 C12'),
+ 'C05': dict(cat='exploration', tech='exhaustive enumeration of statement skeletons up to a nesting depth x bounded exhaustive initial states; IL machine vs C11 reference (gcc/clang-validated)',
+             text='Every statement skeleton of the alphabet (11 assignment operators on local/register/pair targets, declarations, empty statements, blocks, if / if-else / else-if, for loops with constant, zero and data-dependent trip counts, nested and sequential loops, stores, jumps) as single statements, ordered pairs and nests up to depth 3 (thorough 4) runs on the complete E5 domain of its inputs so that every branch and trip count 0..8 is taken; all named variables, registers, memory and the jump must equal the C reference.',
+             note='Trusted: ILVM effect semantics (SEQN/BRANCH/REPEAT/SETL) with a 50000-step horizon; vf/ceval.py statement semantics (cross-validated against gcc/clang in the same run).', ref='4 C05'),
+ 'C06': dict(cat='exploration', tech='exhaustive enumeration of placements of 1..3 value-producing side-effect operations into 26 syntactic positions x bounded exhaustive states; IL machine vs C11 reference',
+             text='Each operation of {v++, v--, value-returning call, void call with visible effect, statement-expression} is placed in every position (initialiser, operands, conditions, loop step, arguments, ?: condition/arms, unused statement, branch arms, loop bodies, store/register/jump operands) and all ordered pairs in 10 two-operation shapes, between statements that observe the touched variables; final state must equal the C reference, which counts evaluations exactly; programs with C-level unsequenced modification are detected statically and skipped.',
+             note='Trusted: ILVM lazy ITE and call-by-name callee instantiation in the flat local namespace; the static unsequenced-modification detector of the reference is conservative (skips, never alarms).', ref='4 C06'),
+ 'C18': dict(cat='model_checking', engine='vf/vpool.py', tech='stateless exhaustive exploration of all schedules of a controlled process pool (assignment of tasks to workers x completion order) driving the real Parser.parse, with conformance runs through the real multiprocessing.Pool',
+             text='multiprocessing.Pool is replaced from outside by a controlled pool whose every decision (which idle worker takes the next task, which completed result is delivered next) is a choice point; all schedules for task lists of up to 4 behaviours over a 6-letter alphabet (one-part, two-part, slow, syntactically broken, lexically broken, empty) on 1..3 real forked workers are enumerated and the result of the real Parser.parse must equal sequential parse_single under every schedule; every task list is also run through the real pool with sizes 1..16.',
+             note='Trusted: vf/vpool.py implements imap/imap_unordered/map/apply_async to stdlib semantics (self-test compares each API with the real pool on every run); symmetry reduction: idle workers with equal task histories are interchangeable.', ref='4 C18'),
+ 'C19': dict(cat='exploration', tech='exhaustive enumeration of all bracket-balanced token strings up to a length (and malformed variants) through the real split/load functions against an independent scanner',
+             text='All 2181 bundled lines and 72 compounds, every bracket-balanced body of up to 6 (thorough 7-8) tokens over a 10-token alphabet x 7 names x 33 line variants (well-formed, blemished, malformed), and every arrangement of up to 3 statements before/inside/after the part markers go through split_resolved_shortcode, split_compounds and load_insn_behavior (on scratch files); well-formed lines must be recovered exactly, malformed ones must raise, compounds must keep every statement in order.',
+             note='Trusted: the explicit scanner and reference splitter in vf/c19ref.py.', ref='4 C19'),
 }
 NA = {}
 ALL = ['C%02d' % i for i in range(1, 21)]
